@@ -497,7 +497,15 @@ def proj(t, k: int):
         # filter_value_and_grad(fn)(x)[0] -> fn(x)
         if k == 0 and f[0] == "call" and f[1] == ("ext", "equinox.filter_value_and_grad") and f[2]:
             return ("call", f[2][0], args, kw)
+        # broadcast_arrays(a, b, ...)[k] is broadcast_to(x_k, broadcast_shapes(a.shape, b.shape, ...))
+        if f == ("ext", "jax.numpy.broadcast_arrays") and not kw and 0 <= k < len(args) and not any(a[0] == "star" for a in args):
+            return ("call", ("ext", "jax.numpy.broadcast_to"), (), (("array", args[k]), ("shape", _broadcast_shapes_of(args))))
     return ("sub", t, C(k))
+
+
+def _broadcast_shapes_of(arrays):
+    shapes = sorted((("attr", a, "shape") for a in arrays), key=key)
+    return ("call", ("ext", "jax.numpy.broadcast_shapes"), tuple(shapes), ())
 
 
 def proj_fn(fn, k):
@@ -748,6 +756,8 @@ def norm_call(f, args, kwargs, prog: Program | None = None):
             if sh[0] == "call" and sh[1] in (("ext", "builtins.list"), ("ext", "builtins.tuple")) and len(sh[2]) == 1 and not sh[3]:
                 # jax canonicalises shapes: a list and a tuple of the same extents are one shape
                 kwargs = dict(kwargs, shape=sh[2][0])
+        if q == "jax.numpy.broadcast_shapes" and args and not kwargs:
+            args = tuple(sorted(args, key=key))  # commutative
         if q == "builtins.zip" and "strict" in kwargs:
             # strict=True only adds an error for sequences of unequal length; the pairs produced are the same
             kwargs = {k: v for k, v in kwargs.items() if k != "strict"}
@@ -1995,6 +2005,8 @@ class Interp:
         v = nt_field(obj, name)
         if v is not None:
             return v
+        if name == "shape" and obj[0] == "call" and obj[1] == ("ext", "jax.numpy.broadcast_to") and dict(obj[3]).get("shape"):
+            return dict(obj[3])["shape"]
         if obj[0] == "record":
             for k, fv in obj[1]:
                 if k == name:
